@@ -3,10 +3,10 @@
 package syncw
 
 import (
-	"os"
-	"os/exec"
 	"encoding/json"
 	"fmt"
+	"os"
+	"os/exec"
 	"sort"
 	"strings"
 
@@ -46,6 +46,11 @@ type Params struct {
 	// repository (what git gc does), at most once per replica and path, while git-bug's handle on
 	// that repository stays open
 	PackRefs bool `json:"packrefs,omitempty"`
+	// PeerPush adds push(x,y): x pushes straight into replica y's repository (y's refs move without y
+	// reading or writing them); needs Peers
+	PeerPush bool `json:"peerpush,omitempty"`
+	// Allow, when not empty, restricts the alphabet to the listed actions (space separated)
+	Allow string `json:"allow,omitempty"`
 }
 
 func (p Params) String() string { b, _ := json.Marshal(p); return string(b) }
@@ -240,6 +245,28 @@ func (m *model) Actions() []string {
 			}
 		}
 	}
+	if m.p.PeerPush && m.p.Peers {
+		for _, x := range m.names {
+			for _, y := range m.names {
+				if y != x {
+					out = append(out, fmt.Sprintf("push(%s,%s)", x, y))
+				}
+			}
+		}
+	}
+	if m.p.Allow != "" {
+		allowed := map[string]bool{}
+		for _, a := range strings.Fields(m.p.Allow) {
+			allowed[a] = true
+		}
+		var kept []string
+		for _, a := range out {
+			if allowed[a] {
+				kept = append(kept, a)
+			}
+		}
+		out = kept
+	}
 	return out
 }
 
@@ -288,6 +315,18 @@ func (m *model) Apply(a string) (string, []xstate.Violation, error) {
 		return "ok", viol, nil
 	case "push":
 		_, err := bug.Push(repo, args[1])
+		peer := false
+		for _, n := range m.names {
+			peer = peer || n == args[1]
+		}
+		if peer {
+			// Objects and refs were written into the peer's repository by another process (here: another
+			// storage handle). A go-git handle that was open meanwhile does not see new pack files; git-bug
+			// on the peer is a process started afterwards, so its handle is opened afresh.
+			if rerr := m.w.Reopen(args[1]); rerr != nil {
+				return "", nil, rerr
+			}
+		}
 		if err != nil {
 			return "rejected", nil, nil
 		}
@@ -490,7 +529,7 @@ func (m *model) merge(x, remote string) (string, []xstate.Violation, error) {
 	for _, id := range ids {
 		st := entState{exists: true}
 		st.head, _ = repo.ResolveRef("refs/bugs/" + string(id))
-		st.view = world.ReadBug(repo, id)
+		st.view = m.w.ReadBugQuiet(x, id)
 		st.readable = st.view.Err == ""
 		st.opset = map[string]bool{}
 		for _, o := range st.view.OpIds {
@@ -550,6 +589,23 @@ func (m *model) merge(x, remote string) (string, []xstate.Violation, error) {
 		}
 		got[r.Id] = r
 	}
+	if m.has("c01") {
+		// every remote of this closed world is valid: a merge that ends in an error, or calls a valid
+		// remote version invalid, keeps the replica from receiving what the others know
+		for id, e := range exp {
+			if !e.remoteOK {
+				continue
+			}
+			r, ok := got[id]
+			switch {
+			case !ok:
+			case r.Err != nil:
+				add("c01.exchange", "merge-fails:"+errClass(r.Err.Error()), "replica %s: merging the valid remote version of %s (%s) failed: %v", x, id, e.scenario, r.Err)
+			case r.Status == entity.MergeStatusInvalid:
+				add("c01.exchange", "merge-refuses-valid-remote:"+errClass(r.Reason), "replica %s: the valid remote version of %s (%s) was reported invalid: %s", x, id, e.scenario, r.Reason)
+			}
+		}
+	}
 	if m.has("c02") {
 		for id, e := range exp {
 			scen[e.scenario]++
@@ -562,7 +618,7 @@ func (m *model) merge(x, remote string) (string, []xstate.Violation, error) {
 				add("c02.merge-error", "error/"+e.scenario, "merge of %s (%s) failed: %v", id, e.scenario, r.Err)
 				continue
 			}
-			after := world.ReadBug(repo, id)
+			after := m.w.ReadBugQuiet(x, id)
 			newHead, _ := repo.ResolveRef("refs/bugs/" + string(id))
 			st := before[id]
 			if r.Status != e.status {
@@ -737,7 +793,7 @@ func (m *model) Check() ([]string, []xstate.Violation, error) {
 		}
 		views[x] = map[entity.Id]world.BugView{}
 		for _, id := range ids {
-			v := world.ReadBug(repo, id)
+			v := m.w.ReadBugQuiet(x, id)
 			views[x][id] = v
 			head, _ := repo.ResolveRef("refs/bugs/" + string(id))
 			d, derr := refmodel.ReadDAG(repo, head)
@@ -753,7 +809,7 @@ func (m *model) Check() ([]string, []xstate.Violation, error) {
 			}
 			if m.has("c01") {
 				for i := 0; i < 2; i++ {
-					v2 := world.ReadBug(repo, id)
+					v2 := m.w.ReadBugQuiet(x, id)
 					if strings.Join(v2.OpIds, ",") != strings.Join(v.OpIds, ",") {
 						add("c01.stable", "order-differs-between-reads", "replica %s bug %s: two reads give different orders", x, id)
 					}
@@ -897,7 +953,7 @@ func (m *model) closure() ([]xstate.Violation, string) {
 				views[x] = map[entity.Id]world.BugView{}
 				ids, _ := world.LocalBugIds(m.w.Repos[x])
 				for _, id := range ids {
-					views[x][id] = world.ReadBug(m.w.Repos[x], id)
+					views[x][id] = m.w.ReadBugQuiet(x, id)
 					if e := views[x][id].Err; e != "" {
 						add("c01.closure", "unreadable-after-sync:"+errClass(e), "after synchronisation replica %s cannot read bug %s: %s", x, id, e)
 					}
